@@ -158,6 +158,47 @@ theorem applyExt_norm (st : List Elem) (r : Except Str (Core × List Elem)) :
     obtain ⟨c, es⟩ := p
     simp [applyExt, Outcome.norm, normSt, List.map_append]
 
+/-- stage 4: `pop("link")` reads the open element's text only through the join of its pieces -/
+theorem popLink_norm (o : Ops) (s : MSt) : normSt (popLink o (normSt s)) = normSt (popLink o s) := by
+  unfold popLink
+  cases hs : s.stack with
+  | nil => simp [normSt, hs]
+  | cons top rest =>
+    simp only [normSt, hs, List.map_cons]
+    have hn : (normE top).name = top.name := rfl
+    have he : (normE top).expecting = top.expecting := rfl
+    simp only [hn, he, normE_flatten]
+    by_cases h1 : (top.name != S "link") = true
+    · simp [h1, hs]
+    · simp only [h1, Bool.false_eq_true, ↓reduceIte]
+      by_cases h2 : (!top.expecting) = true
+      · simp [h2]
+      · simp only [h2, Bool.false_eq_true, ↓reduceIte]
+        split
+        · simp
+        · split <;> simp
+
+theorem endLG_norm (o : Ops) (s : MSt) (kind : Str) : (endLG o (normSt s) kind).norm = (endLG o s kind).norm := by
+  unfold endLG
+  by_cases hk : (kind == S "link") = true
+  · simp only [hk, ↓reduceIte, Outcome.norm]
+    congr 1
+    have := (normSt_eq_iff _ _).mp (popLink_norm o s)
+    rw [normSt_eq_iff]
+    exact ⟨by simp only [this.1], this.2⟩
+  · simp only [hk, Bool.false_eq_true, ↓reduceIte]
+    by_cases hg : (kind == S "guid") = true
+    · simp only [hg, ↓reduceIte, Outcome.norm]
+      congr 1
+      have := (normSt_eq_iff _ _).mp (pop_norm o s (S "id"))
+      rw [normSt_eq_iff]
+      refine ⟨?_, this.2⟩
+      have e1 : endGuidCore o (normSt s) = endGuidCore o s := by
+        unfold endGuidCore
+        simp only [popValue_norm, this.1]
+      rw [e1]
+    · simp only [hg, Bool.false_eq_true, ↓reduceIte]
+
 theorem handleData_norm (s : MSt) (t : Str) : normSt (handleData (normSt s) t) = normSt (handleData s t) := by
   unfold handleData
   cases hs : s.stack with
@@ -186,7 +227,10 @@ theorem step_norm (o : Ops) (s : MSt) (e : MEv) : (mstep o (normSt s) e).norm = 
     · simp only [hc, Bool.false_eq_true, ↓reduceIte, startTag0, normSt_c, normSt_stack]
       cases hx : extKind (handlerName (startPre o s.c tag attrs).1 tag) with
       | some kind => exact applyExt_norm _ _
-      | none => exact applyDispatch_norm _ _
+      | none =>
+        cases hl : lgKind (handlerName (startPre o s.c tag attrs).1 tag) with
+        | some kind => exact applyExt_norm _ _
+        | none => exact applyDispatch_norm _ _
   | stop tag =>
     simp only [mstep, endTag, normSt_c]
     by_cases hc : s.c.incontent = true
@@ -210,6 +254,10 @@ theorem step_norm (o : Ops) (s : MSt) (e : MEv) : (mstep o (normSt s) e).norm = 
         rw [normSt_eq_iff]
         exact ⟨by simp only [this.1], this.2⟩
       · simp only [c2, Bool.false_eq_true, ↓reduceIte]
+        cases hl : lgKind (handlerName s.c tag) with
+        | some kind => exact endLG_norm o s kind
+        | none =>
+        simp only
         cases hdk : dateKey (handlerName s.c tag) with
         | some kp =>
           -- a simple date element: the popped value and the pop itself only see the joined text
